@@ -86,9 +86,9 @@ class Batch:
         self.items = []
         self.expect = {}
 
-    def add(self, key, sources, calls, expected, case):
+    def add(self, key, sources, calls, expected, case, leaf_name=None):
         i = len(self.items)
-        self.items.append(dict(id=i, sources=sources, calls=[[e, repr(t), p, f] for e, t, p, f in calls]))
+        self.items.append(dict(id=i, sources=sources, calls=[[e, repr(t), p, f] for e, t, p, f in calls], leaf_name=leaf_name))
         self.expect[i] = (key, expected, case, calls)
 
     def run(self, rec):
@@ -352,8 +352,10 @@ def chain_variants(rec, batch):
     the isolated interpreter (the emitted child source may import only its parent module)."""
     from . import c13
     import sys
-    for tag, mode, levels in c13.curated_chains():
-        grammars = c13.build_curated(levels, dotted=False)
+    for tag, mode, levels, dotted, alias in [(t, m, l, d, a) for t, m, l in c13.curated_chains() for d, a in ((False, False), (True, False), (True, True), (False, True))]:
+        # dotted names (parent and child in one package); with `alias` the child's saved source is
+        # loaded under another module name than the one in its header
+        grammars = c13.build_curated(levels, dotted=dotted)
         descs = [gast.render_grammar(G) for G in grammars]
         mods = []
         ok = True
@@ -382,7 +384,8 @@ def chain_variants(rec, batch):
         for c in calls:
             rec.nontrivial((descs[-1], c[1]))
         batch.add('chain', [[G['name'], m._source_code] for G, m in zip(grammars, mods)], calls, expected,
-                  dict(kind='variants', desc='\n||\n'.join(descs), tag=str(('chain', tag)), variant='chain-isolated'))
+                  dict(kind='variants', desc='\n||\n'.join(descs), tag=str(('chain', tag, 'dotted' if dotted else 'flat', 'alias' if alias else 'own-name')),
+                       variant='chain-isolated'), leaf_name=('vt_saved_leaf_%d' % len(batch.items)) if alias else None)
 
 
 def run_shard(rec):
